@@ -56,11 +56,25 @@ def tf_list_matrix(tfs):
     return M
 
 
+def fmt_exp(v):
+    """the same decimal value spelled in exponent notation (e.g. 0.5 -> '5e-1', 20 -> '2e1')"""
+    from decimal import Decimal
+    d = Decimal(repr(float(v)))
+    sign, digits, exp = d.as_tuple()
+    digs = ''.join(str(x) for x in digits).lstrip('0') or '0'
+    # strip trailing zeros into the exponent
+    while len(digs) > 1 and digs.endswith('0'):
+        digs = digs[:-1]
+        exp += 1
+    return '%s%se%d' % ('-' if sign else '', digs, exp)
+
+
 def tf_text(tfs, sep_choice=0):
     parts = []
-    for tf in tfs:
+    for k, tf in enumerate(tfs):
         sep = [',', ' ', ', '][sep_choice % 3] if len(tf) > 2 else ''
-        parts.append('%s(%s)' % (tf[0], sep.join(fmt(v) for v in tf[1:])))
+        f = fmt_exp if (sep_choice >= 3 and (k + sep_choice) % 2 == 0) else fmt
+        parts.append('%s(%s)' % (tf[0], sep.join(f(v) for v in tf[1:])))
     return ' '.join(parts)
 
 
